@@ -81,7 +81,13 @@ func runC03(r *lib.Run) {
 					if d.What == "entry" || d.What == "presence" {
 						continue
 					}
-					r.Violate("chain-replica-differs", c03Feat(cfg.Observe(cur), d), d.String(), wit(cfg, r.Seed, idx, map[string]interface{}{"step": step, "edits": ed, "delta": d.String(), "notifications": notifStrings(ns)}))
+					both := cfg.Observe(cur)
+					for lp, v := range cfg.Observe(old).Order {
+						if _, ok := both.Order[lp]; !ok {
+							both.Order[lp] = v
+						}
+					}
+					r.Violate("chain-replica-differs", c03Feat(both, d), d.String(), wit(cfg, r.Seed, idx, map[string]interface{}{"step": step, "edits": ed, "delta": d.String(), "notifications": notifStrings(ns)}))
 				}
 				r.Hit("chain-step")
 				if len(ds) > 0 {
@@ -163,6 +169,13 @@ func c03Flatten(cfg *lib.Cfg, ns []*gpb.Notification, idxA, idxB map[string]stri
 func c03Pair(r *lib.Run, cfg *lib.Cfg, idx int, a, b ygot.GoStruct, edits []string, freshA func() ygot.GoStruct) {
 	oa, ob := cfg.Observe(a), cfg.Observe(b)
 	ia, ib := oa.AltIndex(), ob.AltIndex()
+	// ordered lists of either side matter for attributing losses to the atomic-prefix finding
+	both := ob.Clone()
+	for lp, v := range oa.Order {
+		if _, ok := both.Order[lp]; !ok {
+			both.Order[lp] = v
+		}
+	}
 	w := func(more map[string]interface{}) map[string]interface{} {
 		more["edits"] = edits
 		more["a"] = oa.Dump()
@@ -262,7 +275,7 @@ func c03Pair(r *lib.Run, cfg *lib.Cfg, idx int, a, b ygot.GoStruct, edits []stri
 				continue
 			}
 			bad++
-			r.Violate("applied-differs:"+name, c03Feat(ob, d), d.String(), w(map[string]interface{}{"delta": d.String(), "notifications": notifStrings(ns)}))
+			r.Violate("applied-differs:"+name, c03Feat(both, d), d.String(), w(map[string]interface{}{"delta": d.String(), "notifications": notifStrings(ns)}))
 		}
 		if bad == 0 {
 			r.Hit("applied-ok")
@@ -332,7 +345,7 @@ func c03Pair(r *lib.Run, cfg *lib.Cfg, idx int, a, b ygot.GoStruct, edits []stri
 						if d.What == "entry" || d.What == "presence" {
 							continue
 						}
-						r.Violate("applied-differs:MapToSinglePath", c03Feat(ob, d), d.String(), w(map[string]interface{}{"delta": d.String()}))
+						r.Violate("applied-differs:MapToSinglePath", c03Feat(both, d), d.String(), w(map[string]interface{}{"delta": d.String()}))
 					}
 					r.Hit("single-path")
 				}
